@@ -126,3 +126,132 @@ def real_value(topo, enc_name, env, key, i, style="array", flags=None, numeric=N
     except Exception as e:  # noqa
         return None, e
     return res[f"{key[1]}_{key[0]}+"][i], None
+
+
+# ----------------------------------------------------------------------------------------
+# accumulator shared by the numeric checks
+# ----------------------------------------------------------------------------------------
+class Acc:
+    """collects per-worker results in a picklable dict."""
+
+    def __init__(self, item_name):
+        self.d = {"item": item_name, "n_queries": 0, "nontrivial": 0, "levels": {}, "samples": [], "violations": [],
+                  "inconclusive": [], "paths": 0, "encodings": 0, "validated": 0, "extra": {}}
+
+    def query(self, prover, topo, encname, label, goal, dom=(), pc=(), on_sat=None, sample=True, extra=(), tag=None):
+        """prove goal; on sat call on_sat(model)->violation dict | None (None = does not reproduce)."""
+        d = self.d
+        v = prover.prove(goal, domain=dom, pc=pc, extra=extra)
+        d["n_queries"] += 1
+        lv = v.level if v.status == "unsat" else v.status
+        d["levels"][lv] = d["levels"].get(lv, 0) + 1
+        if v.level != "L0":
+            d["nontrivial"] += 1
+        if sample and v.level != "L0" and len(d["samples"]) < 3:
+            d["samples"].append({"topology": topo.describe() if topo is not None else None, "encoding": encname, "query": label,
+                                 "path_condition": [str(c)[:160] for c in pc], "verdict": v.status,
+                                 "ladder_level": v.level, "ms": round(v.ms, 1)})
+        if v.status == "unsat":
+            return True
+        nm = topo.name if topo is not None else ""
+        if v.status != "sat":
+            d["inconclusive"].append(f"{nm} {encname} {label}: solver {v.status}")
+            return False
+        viol = on_sat(v.model) if on_sat else None
+        if viol is None:
+            d["inconclusive"].append(f"{nm} {encname} {label}: sat model does not reproduce on the real float code")
+        else:
+            d["violations"].append(viol)
+        return False
+
+    def exec_violation(self, pid, topo, encname, style, msg, flags=None, extra=None):
+        rec = {"property": pid, "kind": "exec", "topo": topo.to_json(), "style": style, "encoding": encname, "msg": msg,
+               "flags": flags}
+        if extra:
+            rec.update(extra)
+        self.d["violations"].append({"key": f"exec:{encname.split('#')[0]}:{topo.name}", "group": f"exec:{msg[:60]}",
+                                     "what": f"{topo.describe()} | {encname}: {msg}", "replay": rec})
+
+    def inconclusive(self, msg):
+        self.d["inconclusive"].append(msg)
+
+    def done(self, prover=None):
+        if prover is not None:
+            self.d["stats"] = prover.stats.asdict()
+        return self.d
+
+
+def summarize(results):
+    """merge worker dicts -> (violations, inconclusive, totals, levels, samples, stats)."""
+    viol, inc, samples = [], [], []
+    tot = {"n_queries": 0, "nontrivial": 0, "paths": 0, "encodings": 0, "validated": 0}
+    levels = {}
+    st = {"solver_s": 0.0, "congruence_queries": 0, "congruence_merges": 0}
+    extra = {}
+    for r in results:
+        if "error" in r:
+            inc.append(f"{r['item']}: worker error {r['error']} {r.get('trace', '')[-600:]}")
+            continue
+        viol += r["violations"]
+        inc += r["inconclusive"]
+        samples += r["samples"][:1]
+        for k in tot:
+            tot[k] += r.get(k, 0)
+        for k, v in r["levels"].items():
+            levels[k] = levels.get(k, 0) + v
+        for k in st:
+            st[k] += r.get("stats", {}).get(k, 0)
+        for k, v in r.get("extra", {}).items():
+            if isinstance(v, (int, float)):
+                extra[k] = extra.get(k, 0) + v
+            elif isinstance(v, list):
+                extra.setdefault(k, []).extend(v)
+    st["solver_s"] = round(st["solver_s"], 2)
+    return viol, inc, tot, levels, samples, st, extra
+
+
+def base_coverage(tot, levels, samples, st, n_programs, rule, extra=None):
+    disch = sum(v for k, v in levels.items() if k in ("L0", "L1", "L2", "L3"))
+    cov = {
+        "states": max(1, tot["n_queries"]),
+        "transitions": max(1, tot["encodings"]),
+        "traces_validated_against_impl": tot["validated"],
+        "programs": n_programs,
+        "disagreements_checked": tot["n_queries"],
+        "evaluations": max(1, tot["encodings"]),
+        "distinct_nontrivial": tot["nontrivial"],
+        "obligations": tot["n_queries"],
+        "discharged": disch,
+        "rule": rule,
+        "queries_by_result": levels,
+        "numpy_paths": tot["paths"],
+        "solver": st,
+        "samples": samples[:12] or [{"note": "all queries closed syntactically (ladder level L0)"}],
+        "exhaustive": False,
+    }
+    if extra:
+        cov.update(extra)
+    return cov
+
+
+def replay_exec(rec):
+    """re-observe an execution failure on the real float/CasADi code."""
+    topo = T_.Topo.from_json(rec["topo"])
+    print("replay: building and stepping", topo.describe(), "with", rec["encoding"], "flags", rec.get("flags"))
+    env = numrun.sample_env(topo, random.Random(0))
+    exc = None
+    if rec["encoding"].startswith("numpy"):
+        res, exc = numrun.numpy_float(topo, env, rec.get("style", "array"), rec.get("flags"))
+    else:
+        try:
+            runs.cas_function(topo, "SX" if "SX" in rec["encoding"] else "MX", rec.get("numeric"),
+                              rec.get("compact", 0), rec.get("more_out", False), rec.get("flags"))
+        except Exception as e:  # noqa
+            exc = e
+    print("exception:", repr(exc))
+    return 1 if exc is not None else 0
+
+
+def casadi_numeric_for(topo):
+    """lanes must be numeric on the CasADi side when phi is given (`lanes_drop == 0` is evaluated in Python)."""
+    return {f"lam_{l.name}": 1 + (k % 3) for k, l in enumerate(topo.links)} if topo.phi else None
